@@ -87,49 +87,35 @@ def _definitely_not_depth(ctx: Ctx, call: ast.AST) -> bool:
 
 
 def creation_increments(ctx: Ctx) -> dict[str, tuple[Optional[Lin], ast.AST, str]]:
-    """form -> (increment applied to the depth for the children of that form, node, description)"""
+    """form -> (increment applied to the depth for the children of that form, node, description).  Obtained by interpreting
+    create_node on one symbolic type per form (sa/treemodel.py) with a context at depth 2 and reading the depth of the
+    context handed to every recursive creation call (for refinements: the call made by the callback given to generate)."""
+    from ..treemodel import (A, ABSTRACT, ANN_INT, Budget, LIST_A, PROD, TUPLE_AB, TreeModel, UNION_AB, Obj, create_node_runs)
     fn = ctx.fn(CREATE_NODE)
-    chains = dispatch_chains(fn)
-    if not chains:
-        raise AnalysisError("create_node has no dispatch chain")
-    var, br = max(chains, key=lambda x: len(x[1]))
+    model = TreeModel(ctx, fields={PROD: [("f1", A), ("f2", A)]})
     out: dict[str, tuple[Optional[Lin], ast.AST, str]] = {}
-
-    def rec_calls(body: list[ast.stmt]) -> list[ast.Call]:
-        return [c for s in body for c in ast.walk(s) if isinstance(c, ast.Call) and isinstance(c.func, ast.Name) and c.func.id == "create_node"]
-
-    def handle(form: str, body: list[ast.stmt], node: ast.AST):
-        calls = rec_calls(body)
-        if not calls:
-            return
-        incs = []
-        for c in calls:
-            g = ctx.res.resolve(fn, c)
-            params = g.targets[0].params if g.targets else fn.params
-            cexpr = next((k.value for k in c.keywords if k.arg == "context"), None)
-            if cexpr is None and "context" in params and len(c.args) > params.index("context"):
-                cexpr = c.args[params.index("context")]
-            incs.append(_ctx_depth_increment(ctx, fn, cexpr, ast.Module(body=body, type_ignores=[])) if cexpr is not None else None)
-        inc = incs[0] if incs and all(i == incs[0] for i in incs) else None
-        out[form] = (inc, calls[0], norm(calls[0])[:60])
-
-    for b in br:
-        if b.negated:
+    for form, sym in (("tuple", TUPLE_AB), ("list", LIST_A), ("annotated", ANN_INT), ("union", UNION_AB), ("abstract", ABSTRACT),
+                      ("concrete", PROD)):
+        try:
+            runs = create_node_runs(ctx, model, sym, depth=2)
+        except Budget:
+            out[form] = (None, fn.node, "too many interpretations")
             continue
-        if b.form in ("tuple", "list", "annotated", "union"):
-            handle(b.form, b.body, b.test)
-        elif b.form == "alternatives":
-            handle("abstract", b.body, b.test)
-        elif b.form == "else":
-            inner = [st for st in b.body if isinstance(st, ast.If) and any(nb.form == "alternatives" for nb in chain(st))]
-            if inner:
-                for nb in chain(inner[0]):
-                    if nb.form == "alternatives" and not nb.negated:
-                        handle("abstract", nb.body, nb.test)
-                    elif nb.form == "else":
-                        handle("concrete", nb.body, inner[0])
-            else:
-                handle("concrete", b.body, b.body[0])
+        incs = set()
+        node = None
+        for trace, rv, notes in runs:
+            if any(e.kind == "raise" for e in trace):
+                continue
+            for e in trace:
+                if e.kind == "call" and e.name == "create_node":
+                    c_ = e.kwargs.get("context")
+                    d_ = c_.fields.get("depth") if isinstance(c_, Obj) else None
+                    incs.add(d_ - 2 if isinstance(d_, int) and not isinstance(d_, bool) else None)
+                    node = node or e.node
+        if not incs:
+            continue
+        inc = Lin.c(next(iter(incs))) if len(incs) == 1 and None not in incs else None
+        out[form] = (inc, node if node is not None else fn.node, norm(node)[:60] if node is not None else form)
     return out
 
 
@@ -158,45 +144,96 @@ def _dist_env() -> Env:
     return env
 
 
+def _gdt_model(ctx: Ctx, sym, e_flag: bool):
+    """interpret Grammar.get_distance_to_terminal on a symbolic type: table entries are the symbols D(<type>)"""
+    from ..modelinterp import Interp, Sym, TypeV, UNKNOWN, Budget
+    g = ctx.fn(GDT)
+
+    def atom(it, e, env):
+        if isinstance(e, ast.Subscript) and isinstance(e.value, ast.Attribute) and e.value.attr == "distanceToTerminal":
+            k = it.ev(e.slice, env, 9)
+            if isinstance(k, TypeV):
+                return Lin.sym(f"D({k.name})")
+        return None
+
+    it = Interp(ctx.prog, g.cls, atom, None, max_depth=6, max_traces=32)
+    it.allow_recursion = True
+    env = {"self": Sym("self"), g.params[1]: sym, "self.expansion_depthing": e_flag}
+    return it.run(g, env)
+
+
 def distance_increments(ctx: Ctx) -> dict[str, tuple[Optional[Lin], ast.AST, str, Optional[str]]]:
-    """form -> (increment of the distance over the inner type(s): a Lin in the symbol e, node, text, aggregator)"""
+    """form -> (increment of the distance over the inner type(s): a Lin in the symbol e, node, text, aggregator).
+    list / tuple / annotated / union: get_distance_to_terminal is interpreted on a symbolic type of that form in both depth
+    modes (recursive calls inlined, table entries symbolic); abstract / concrete: the aggregation equations of preprocess."""
+    from ..modelinterp import MaxV, UNKNOWN, Budget
+    from ..treemodel import A, ANN_INT, B, INT, LIST_A, TUPLE_AB, UNION_AB
     out: dict[str, tuple[Optional[Lin], ast.AST, str, Optional[str]]] = {}
     g = ctx.fn(GDT)
-    chains = dispatch_chains(g, min_forms=2)
-    if not chains:
-        raise AnalysisError("get_distance_to_terminal has no dispatch chain")
-    var, br = max(chains, key=lambda x: len(x[1]))
-    for b in br:
-        rets = [r for s in b.body for r in ast.walk(s) if isinstance(r, ast.Return) and r.value is not None]
-        if not rets or b.negated:
-            continue
-        v = evaluate(_dist_env(), rets[0].value)
-        inc = (v - Lin.sym("R")) if isinstance(v, Lin) and "R" in v.coef else None
-        agg = next((call_name(c) for c in ast.walk(rets[0].value) if isinstance(c, ast.Call) and call_name(c) in ("max", "min")), None)
-        form = b.form
-        if form == "generic":
-            for f2 in ("union", "tuple"):
-                out.setdefault(f2, (inc, rets[0], norm(rets[0].value)[:70], agg))
-        elif form in ("annotated", "list", "union", "tuple"):
-            out[form] = (inc, rets[0], norm(rets[0].value)[:70], agg)
-    # preprocess: abstract / concrete equations
+    for form, sym, inner in (("list", LIST_A, (A,)), ("tuple", TUPLE_AB, (A, B)), ("annotated", ANN_INT, (INT,)), ("union", UNION_AB, (A, B))):
+        incs = {}
+        agg = None
+        text = ""
+        for e_flag in (False, True):
+            try:
+                runs = _gdt_model(ctx, sym, e_flag)
+            except Budget:
+                incs[e_flag] = None
+                continue
+            vals = []
+            for trace, rv, notes in runs:
+                if any(x.kind == "raise" for x in trace):
+                    continue
+                vals.append(rv)
+            inc = None
+            if len(vals) == 1:
+                v = vals[0]
+                want = {Lin.sym(f"D({t.name})") for t in inner}
+                if isinstance(v, MaxV) and set(v.items) == want and isinstance(v.offset, Lin) and v.offset.is_const():
+                    inc, agg = v.offset, v.kind
+                elif isinstance(v, Lin) and len(inner) == 1 and (v - Lin.sym(f"D({inner[0].name})")).is_const():
+                    inc = v - Lin.sym(f"D({inner[0].name})")
+                text = repr(v)[:70]
+            incs[e_flag] = inc
+        if incs.get(False) is not None and incs.get(True) is not None:
+            l = Lin.c(incs[False].const) + Lin.sym("e").scale(incs[True].const - incs[False].const)
+            out[form] = (l, g.node, f"{form}: {text}", agg)
+        else:
+            out[form] = (None, g.node, f"{form}: {text or 'not followed'}", agg)
+    # preprocess: abstract / concrete equations (aggregations over the table / over get_distance_to_terminal of the fields)
     p = ctx.fn(PREPROCESS)
-    for n in walk_local(p.node):
-        if isinstance(n, ast.If):
-            f, v_, neg = classify(n.test)
-            if f == "abstract" and not neg:
-                mins = [c for s in n.body for c in ast.walk(s) if isinstance(c, ast.Call) and call_name(c) in ("min", "max") and len(c.args) == 2
-                        and isinstance(c.func, ast.Name)]
-                for c in mins:
-                    v = evaluate(_dist_env(), c.args[1])
-                    if isinstance(v, Lin) and "R" in v.coef:
-                        out["abstract"] = (v - Lin.sym("R"), c, norm(c)[:70], call_name(c))
-                for s in n.orelse:
-                    for c in ast.walk(s):
-                        if isinstance(c, ast.Call) and call_name(c) in ("max", "min") and len(c.args) == 1 and isinstance(c.args[0], (ast.GeneratorExp, ast.ListComp)):
-                            v = evaluate(_dist_env(), c.args[0].elt)
-                            if isinstance(v, Lin) and "R" in v.coef:
-                                out["concrete"] = (v - Lin.sym("R"), c, norm(c)[:70], call_name(c))
+    env0 = _dist_env()
+    for a in walk_local(p.node, include_nested=True):
+        if isinstance(a, ast.Assign) and len(a.targets) == 1 and isinstance(a.targets[0], ast.Name) and isinstance(a.value, ast.Call) \
+                and call_name(a.value) == "int":
+            env0.vars[a.targets[0].id] = evaluate(env0, a.value)
+    for c in walk_local(p.node, include_nested=True):
+        if not (isinstance(c, ast.Call) and isinstance(c.func, ast.Name) and c.func.id in ("min", "max")):
+            continue
+        cands: list[ast.AST] = []
+        args = list(c.args)
+        if len(args) == 1 and isinstance(args[0], ast.BinOp) and isinstance(args[0].op, ast.Add):
+            args = [args[0].left, args[0].right]
+        for a in args:
+            if isinstance(a, (ast.GeneratorExp, ast.ListComp)):
+                cands.append(a.elt)
+            elif isinstance(a, (ast.List, ast.Tuple)):
+                cands += list(a.elts)
+            else:
+                cands.append(a)
+        for expr in cands:
+            v = evaluate(env0.copy(), expr)
+            if not (isinstance(v, Lin) and "R" in v.coef):
+                continue
+            uses_gdt = any(isinstance(x, ast.Call) and call_name(x) == "get_distance_to_terminal" for x in ast.walk(expr))
+            uses_tab = any(isinstance(x, ast.Subscript) and isinstance(x.value, ast.Attribute) and x.value.attr == "distanceToTerminal"
+                           for x in ast.walk(expr))
+            if v - Lin.sym("R") == Lin.c(0):
+                continue   # the running value itself (min(val, ...))
+            if uses_gdt:
+                out["concrete"] = (v - Lin.sym("R"), c, norm(c)[:70], c.func.id)
+            elif uses_tab:
+                out["abstract"] = (v - Lin.sym("R"), c, norm(c)[:70], c.func.id)
     return out
 
 
